@@ -143,11 +143,19 @@ func buildCmpGrid() {
 		"123456789012345678901234567890123456", "123456789012345678901234567890123457", "99999999999999999999999999999999995", "99999999999999999999999999999999994", "1e37", "1.00000000000000000000000000000000000010"} {
 		num(l, l)
 	}
+	// numbers read back from a local: the number that was bound, digit for digit
+	num("($g1 = 12345678901234567891, $g1)", "12345678901234567891")
+	num("($g2 = 1/3, $g2)", "0.3333333333333333333333333333333333")
+	num("($g3 = 9007199254740993, $g3)", "9007199254740993")
+	num("($g4 = 1e400, $g4)", "1e400")
+	num("($g5 = 0.1, $g5 + 0)", "0.1")
 	cmpGrid = append(cmpGrid, gval{Expr: "(1/0)", Kind: "numx"}, gval{Expr: "(-1/0)", Kind: "numx"})
 	// NaN from several sources: whatever it equals, it does not equal a finite number
 	cmpData["dnan"] = math.NaN()
 	cmpGrid = append(cmpGrid, gval{Expr: "(0/0)", Kind: "numx"}, gval{Expr: "sqrt(-1)", Kind: "numx"}, gval{Expr: "dnan", Kind: "numx"}, gval{Expr: "toFloat('x')", Kind: "numx"}, gval{Expr: "($nn = 0/0)", Kind: "numx"})
-	strs := []string{"", "a", "b", "ab", "a ", "A", "1", "10", "9", "é", "中", "aa", " ", "1.0", "true", "null", "b\x00", "\xff"}
+	strs := []string{"", "a", "b", "ab", "a ", "A", "1", "10", "9", "é", "中", "aa", " ", "1.0", "true", "null", "b\x00", "\xff",
+		// bytes that are not valid UTF-8 (byte order, not the order of the characters they would decode to), the real U+FFFD, U+10000
+		"\x80", "\xfe1", "\xff0", "\xc3", "\xef\xbf\xbd", "\xf0\x90\x80\x80", "a\x80", "a\xc3\xa9"}
 	for i, s := range strs {
 		name := fmt.Sprintf("s%d", i)
 		cmpData[name] = s
